@@ -962,17 +962,17 @@ End Ops.
     the corresponding fix has landed in /repo (the model driver is extracted with this definition) *)
 Definition current_behaviour : behaviour :=
   {| b_df_checks := true;             (* fixed in /repo: bb6b709 (#7) *)
-     b_df_cols_check := false;        (* open: #26 *)
-     b_mtag_pos_first := false;       (* open: #8 *)
-     b_array_checks_first := false;   (* open: #9 #32 *)
-     b_meta_lookup_first := false;    (* open: #10 *)
-     b_link_lookup_first := false;    (* open: #10 *)
-     b_ext_check_first := false;      (* open: #10 *)
+     b_df_cols_check := true;         (* fixed in /repo (#26 ) *)
+     b_mtag_pos_first := true;        (* fixed in /repo (#8 ) *)
+     b_array_checks_first := true;    (* fixed in /repo (#9 #32 ) *)
+     b_meta_lookup_first := true;     (* fixed in /repo (#10 ) *)
+     b_link_lookup_first := true;     (* fixed in /repo (#10 ) *)
+     b_ext_check_first := true;       (* fixed in /repo (#10 ) *)
      b_values_check_first := true;    (* fixed in /repo: 491c620 *)
      b_prop_type_check := true;       (* fixed in /repo: 2f44815 *)
      b_prop_values_uniform := true;   (* fixed in /repo: 491c620 *)
-     b_esrc_by_name := false;         (* open: #24 #25 *)
-     b_uuid_name_links := false;      (* open: new finding *)
-     b_replace_all_atomic := false;   (* open: new finding *)
-     b_feature_null_guard := false;   (* open: #14 *)
-     b_delsource_by_id := false       (* open: new finding (C04) *) |}.
+     b_esrc_by_name := true;          (* fixed in /repo (#24 #25 ) *)
+     b_uuid_name_links := true;       (* fixed in /repo (new finding ) *)
+     b_replace_all_atomic := true;    (* fixed in /repo (new finding ) *)
+     b_feature_null_guard := true;    (* fixed in /repo (#14 ) *)
+     b_delsource_by_id := true        (* fixed in /repo (new finding (C04) ) *) |}.
